@@ -14,7 +14,7 @@ MODULE = "TriompheModel.Props.C08"
 EXTRA = ["TriompheModel.Props.Gates", "TriompheModel.Proofs.HistCow"]
 TAGS = ["C08"]
 WEIGHTS = dict(makeMut=26, makeUnique=14, clone=18, cloneArc=8, conv=16, cb=8, drop=10)
-PROGRAMS_QUICK = ["make_mut_vs_readers"]
+PROGRAMS_QUICK = ["make_mut_vs_readers", "offset_make_mut_overaligned"]
 
 
 def schedule_part(ctx, prop, programs_quick):
